@@ -121,6 +121,7 @@ def gen_plan(seed: int, run: int, tier: str) -> dict:
 def _task_script(rng: random.Random, g: gen.OpGen, me: str, nobj: int, shared_running: list[str], shared_waiting: list[str], used_params: set, n: int) -> list[dict]:
     out: list[dict] = []
     own_trials: list[tuple[str, str]] = []  # (handle, state at creation)
+    own_nobj: dict[str, int] = {}  # objectives of the study an own trial lives in
     own_studies: list[str] = []
     k = 0
     while len(out) < n:
@@ -136,6 +137,7 @@ def _task_script(rng: random.Random, g: gen.OpGen, me: str, nobj: int, shared_ru
                 op["template"] = g.template(nobj if op["study"] == "S0" else 1)
                 state = op["template"]["state"]
             own_trials.append((h, state))
+            own_nobj[h] = nobj if op["study"] == "S0" else 1
             out.append(op)
         elif r < 0.30:
             h = "%sS%d" % (me, k)
@@ -179,7 +181,7 @@ def _task_script(rng: random.Random, g: gen.OpGen, me: str, nobj: int, shared_ru
             else:
                 if th in [h for h, s in own_trials]:
                     st = rng.choice(["COMPLETE", "FAIL"])
-                    vals = [cf(g.objective_value()) for _ in range(nobj)] if st == "COMPLETE" else None
+                    vals = [cf(g.objective_value()) for _ in range(own_nobj.get(th, nobj))] if st == "COMPLETE" else None
                     out.append({"op": "set_trial_state_values", "trial": th, "state": st, "values": vals})
         elif r < 0.72:
             out.append({"op": rng.choice(["set_study_user_attr", "set_study_system_attr"]), "study": "S0", "key": rng.choice(["a", "b"]), "value": "%s%d" % (me, g.uniq())})
